@@ -26,6 +26,34 @@ fn taken_fd() -> UnixFd {
     let _ = nix::unistd::close(raw);
     fd
 }
+/// RLIMIT_NOFILE soft limit: with 0 every system call that would create a descriptor fails with EMFILE
+fn nofile_soft() -> libc::rlim_t {
+    let mut r = libc::rlimit { rlim_cur: 0, rlim_max: 0 };
+    unsafe { libc::getrlimit(libc::RLIMIT_NOFILE, &mut r) };
+    r.rlim_cur
+}
+fn set_nofile_soft(cur: libc::rlim_t) {
+    let mut r = libc::rlimit { rlim_cur: 0, rlim_max: 0 };
+    unsafe { libc::getrlimit(libc::RLIMIT_NOFILE, &mut r) };
+    r.rlim_cur = cur;
+    unsafe { libc::setrlimit(libc::RLIMIT_NOFILE, &r) };
+}
+/// one byte on the wire; marshalling it uses up the process's descriptors (the caller restores the limit)
+struct TripWire;
+impl rustbus::Signature for TripWire {
+    fn signature() -> rustbus::signature::Type {
+        <u8 as rustbus::Signature>::signature()
+    }
+    fn alignment() -> usize {
+        1
+    }
+}
+impl rustbus::Marshal for TripWire {
+    fn marshal(&self, ctx: &mut rustbus::wire::marshal::MarshalContext) -> Result<(), rustbus::wire::errors::MarshalError> {
+        set_nofile_soft(0);
+        0u8.marshal(ctx)
+    }
+}
 fn good_fd() -> UnixFd {
     UnixFd::new(nix::unistd::dup(0).unwrap())
 }
@@ -203,6 +231,15 @@ fn builder_op(rng: &mut Prng, msg: &mut MarshalledMessage, out: &mut Out) -> (St
             let a = good_fd();
             let b = good_fd();
             let last_ok = rng.chance(1, 2);
+            if !last_ok && rng.chance(1, 2) {
+                // the last one is fine, but by the time it is marshalled the process has no descriptor left: its dup fails
+                out.hit("op_push_fds_multi_emfile");
+                let c = good_fd();
+                let old = nofile_soft();
+                let r = msg.body.push_param4(&a, &b, TripWire, &c).is_ok();
+                set_nofile_soft(old);
+                return ("P:f1|f1|f0".into(), Some(r));
+            }
             let c = if last_ok { good_fd() } else { taken_fd() };
             let r = msg.body.push_param3(&a, &b, &c).is_ok();
             (format!("P:f1|f1|{}", if last_ok { "f1" } else { "f0" }), Some(r))
@@ -498,7 +535,7 @@ pub fn run(cfg: &Cfg) {
     }
     let _ = ByteOrder::LittleEndian;
     out.finish(
-        "bodies: fresh, from_parts behind 8/16/24 foreign bytes (buf_offset != 0), continued on the received copy after a trip over the wire (body behind the header in one buffer), started with 247..258 single bytes (signature crossing 255 characters); random histories over 16 builder operations (push_param of 8 typed kinds, &str with NUL, a struct / an array failing at an inner element after partial output, push_param2..5 and push_params with a NUL string at any position, push_variant, push_old_param(s) with a poisoned leaf, valid / taken descriptors, three descriptors of which the last is taken, a struct with a taken descriptor, reset): after every operation buffer, signature, descriptor count and validate() are observed; parser histories over 14 get kinds (9 single types, get_param, get2/3/4) on bodies drawn from the same menu, and on bodies with one flipped bit; distinct by request",
+        "bodies: fresh, from_parts behind 8/16/24 foreign bytes (buf_offset != 0), continued on the received copy after a trip over the wire (body behind the header in one buffer), started with 247..258 single bytes (signature crossing 255 characters); random histories over 16 builder operations (push_param of 8 typed kinds, &str with NUL, a struct / an array failing at an inner element after partial output, push_param2..5 and push_params with a NUL string at any position, push_variant, push_old_param(s) with a poisoned leaf, valid / taken descriptors, three descriptors of which the last is taken or cannot be duplicated any more (EMFILE injected by an element marshalled before it), a struct with a taken descriptor, reset): after every operation buffer, signature, descriptor count and validate() are observed; parser histories over 14 get kinds (9 single types, get_param, get2/3/4) on bodies drawn from the same menu, and on bodies with one flipped bit; distinct by request",
         false,
     );
 }
